@@ -42,6 +42,7 @@ u8* vp_i2p(u64 x) { return (u8*)&MA.a; }
 void vp_functor(u32 tid) { functor_calls++; }
 void vp_done(u32 tid) { done[tid] = 1; if (tid == 0) VP_ASSERT(functor_calls == 1, "the entrant returned but its functor did not run exactly once"); }
 /* ---- external boundary */
+struct S_class_tbb__detail__r1__basic_tls _ZN3tbb6detail2r18governor6theTLSE;   /* governor::theTLS (defined in governor.cpp): only its key is read, and passed to pthread_getspecific */
 static TD* cur_td(void) { return vp_cur == 0 ? &TD_E : SIDE == 3 ? &TD_L : &TD_W; }
 u8* vpx_pthread_getspecific(u32 key) { return (u8*)cur_td(); }            /* governor::get_thread_data(): the calling thread's thread_data (declared pure) */
 void _ZN3tbb6detail2r18governor20init_external_threadEv(void) { VP_ASSERT(0, "thread_data exists"); }
